@@ -251,6 +251,13 @@ def run_path(case, ctx):
     for col in "xyzr":
         ctx.check(rev.get_ndata(col).tolist() == [float(np.float32(t[col][i])) for i in reversed(ids)],
                   "path_reverser/points-reversed", f"column {col}")
+    # re-rooting the path at its far end keeps every node's type, except that the two ends exchange theirs
+    want_types = [int(t["type"][i]) for i in reversed(ids)]
+    want_types[0], want_types[-1] = want_types[-1], want_types[0]
+    got_types = [int(v) for v in rev.type()]
+    if want_types != want_types[::-1]:
+        ctx.cls("path-types-not-a-palindrome")
+    ctx.check(got_types == want_types, "path_reverser/types-kept-ends-exchanged", lambda: f"{got_types} vs {want_types}")
 
 
 SUBCHECKS = [
@@ -259,6 +266,6 @@ SUBCHECKS = [
     Sub("cat", cat_case, run_cat, quick=1200, thorough=16000, shards_quick=4,
         required={"merged": 100, "linked": 100, "translate": 100, "no-translate": 100,
                   "node2-not-root": 100, "cols2:tag": 50, "cols2:tag+w+q": 50}),
-    Sub("path", path_case, run_path, quick=300, thorough=3000, shards_quick=2,
-        required={"path-len>=3": 50}),
+    Sub("path", path_case, run_path, quick=600, thorough=3000, shards_quick=2,
+        required={"path-len>=3": 50, "path-types-not-a-palindrome": 50}),
 ]
